@@ -79,6 +79,11 @@ def variants(rng, accepts, unit, name, quick):
     if unit or base_name(name) not in DISCRETE:
         out.append(('csr_unsorted', 'int'))
         out.append(('csr_unsorted', 'float'))
+        out.append(('csr_shuffled', 'float'))
+        if unit:
+            # bool entries AND unsorted indices together: what adjacency[p][:, p] of a library graph is (seed C02_3 needed both)
+            out.append(('csr_shuffled', 'bool'))
+            out.append(('csr_unsorted', 'bool'))
     if quick and len(out) > 6:
         keep = rng.sample(out, 6)
         out = keep
@@ -152,7 +157,7 @@ def run(ctx, scratch):
                     if 'ok' not in base:
                         continue
                     _mod(ctx, name, out, s2, opts, fmt + '/' + dt)
-                    rt, at = (2e-3, 2e-4) if (name in ('PageRank[diteration]', 'PageRank[push]') and fmt == 'csr_unsorted') else (1e-6, 1e-8)
+                    rt, at = (2e-3, 2e-4) if (name in ('PageRank[diteration]', 'PageRank[push]') and fmt in ('csr_unsorted', 'csr_shuffled')) else (1e-6, 1e-8)
                     bad = compare(base['ok'], out['ok'], rtol=rt, atol=at, skip_tags=skip)   # float32 sweep kernels: the sweep order follows the storage order
                     if base_name(name) in CLASSIFIERS:
                         bad = [(k, why) for (k, why) in bad if not (k.startswith('labels') and margin_ok(base['ok'], out['ok'], k))]
